@@ -159,15 +159,21 @@ def drive_script(item):
         spath = os.path.join(sb.root, "job.sh")
         with open(spath, "w") as f:
             f.write(script)
-        fo = open(o, "wb") if o else open(os.devnull, "wb")
-        fe = open(e, "wb") if e else fo
+        try:
+            fo = open(o, "wb") if o else open(os.devnull, "wb")
+            fe = open(e, "wb") if e else fo
+        except OSError:
+            # the scheduler cannot open the files the directives name (gwf only creates <project>/.gwf/logs): the job
+            # dies before the spec runs - an observation (nothing echoed, no logs), not a failure of the harness
+            fo = fe = None
         env = dict(os.environ, SLURM_JOBID="1", HOME="/home/someone")
-        p = subprocess.run(["bash", spath], cwd=foreign, stdout=fo, stderr=fe, env=env, timeout=60)
-        fo.close()
-        if fe is not fo:
-            fe.close()
-        obs["ran"] = True
-        obs["job_failed"] = p.returncode != 0
+        if fo is not None:
+            p = subprocess.run(["bash", spath], cwd=foreign, stdout=fo, stderr=fe, env=env, timeout=60)
+            fo.close()
+            if fe is not fo:
+                fe.close()
+        obs["ran"] = fo is not None
+        obs["job_failed"] = fo is None or p.returncode != 0
         outtxt = open(o, errors="replace").read() if o and o != "/dev/null" and os.path.exists(o) else ""
         errtxt = open(e, errors="replace").read() if e and os.path.exists(e) else ""
         lines = outtxt.splitlines()
